@@ -13,6 +13,10 @@ Oracle (independent of the engine code, from the property statement):
         restricted expression naming ``x._y`` does not run.
 The raw-read log of the probes is evidence and classifies the channel (mechanism key); it is
 never a verdict on its own.
+Every channel of the hand-written matrix is also rendered in derived settings (same oracle): over
+every kind of iterable a dtml-in accepts (incl. items of basic type and (key, item) pairs), with
+tree children of other sequence types, and inside every namespace-changing construct (with
+mapping/object/expr x only, nested, in, let, if, try) - see RULE.
 """
 import re
 
